@@ -162,6 +162,8 @@ class RunReactorTask(Task):
             if p == "assoc._reactor_checkpoint" and method == "wait":
                 return True
             if p == "assoc.dimse" and method == "get_msg":
+                if kw.get("block", args[0] if args else True) is not False:
+                    I.trace.append(Ev("blocking", ("get_msg",)))
                 if I.choose(2, "a request is waiting") == 1:
                     m = Env("request")
                     m.truth = True
@@ -180,7 +182,11 @@ class RunReactorTask(Task):
             if p == "assoc.dul" and method == "is_alive":
                 return I.choose(2, "dul alive") == 0
             if p == "assoc.dul" and method == "idle_timer_expired":
-                return I.choose(2, "idle timeout") == 1
+                g["idle_asks"] = g.get("idle_asks", 0) + 1
+                g["idle_asked"] = I.choose(2, "idle timeout") == 1
+                return g["idle_asked"]
+            if p == "assoc.dimse" and method == "get_msg" and kw.get("block", args[0] if args else True) is not False:
+                I.trace.append(Ev("blocking", ("get_msg",)))
             if p == "assoc.dul" and method == "receive_pdu":
                 return None
             return NotImplemented
@@ -219,6 +225,24 @@ class RunReactorTask(Task):
                  bool(g.get("checked")) or g.get("est_reads", 0) > 0, detail=f"{names}")
         if not g["release_pending"]:
             I.ob(f"{P}/no-release-response-without-a-request", not answered)
+        # ---- C08 / C09: the network (idle) timeout.  The reactor asks the provider's idle timer (C09: a Timer on the monotone
+        # clock) once per iteration; when it has run out the association is ended now - by the configured response - and the
+        # reactor stops; while it has not, this iteration ends nothing on its own account
+        idle = g.get("idle_asked")
+        ended_by_peer = any(e.name == "set" and e.args[0] in ("is_released", "is_aborted") for e in tr)
+        if idle is True and not ended_by_peer:
+            want = "release" if g["timeout_response"] == "A-RELEASE" else "abort"
+            I.ob(f"C08/{RUN}/network-timeout:the-association-is-ended-by-the-configured-response-and-the-reactor-stops",
+                 names.count(want) == 1 and ({"release", "abort"} - {want}).isdisjoint(names) and "kill" in names and how == "returned"
+                 and names.index(want) < names.index("kill"), detail=f"{how}: {names}")
+        if idle is False:
+            I.ob(f"C08/{RUN}/no-timeout-handling-while-the-idle-timer-has-not-run-out",
+                 "abort" not in names and "release" not in names, detail=f"{names}")
+        I.ob(f"C09/{RUN}/the-network-timeout-is-decided-by-the-provider's-idle-timer-asked-at-most-once-per-iteration",
+             g.get("idle_asks", 0) <= 1)
+        if how == "continues":
+            I.ob(f"C08/{RUN}/an-iteration-that-continues-blocked-on-nothing-but-the-bounded-waits",
+                 all(e.name not in ("blocking",) for e in tr))
 
     def body(self, I):
         g = I.ghost
@@ -229,7 +253,7 @@ class RunReactorTask(Task):
         g["established"] = I.choose(2, "established") == 0
         me.attrs["is_established"] = g["established"]
         me.attrs["_kill"] = False
-        me.attrs["network_timeout_response"] = ["A-RELEASE", "A-ABORT"][I.choose(2, "timeout response")]
+        me.attrs["network_timeout_response"] = g["timeout_response"] = ["A-RELEASE", "A-ABORT"][I.choose(2, "timeout response")]
         kind, val = I.run_function(I.repo.func(RUN), [me])
         I.ob(f"C07/{RUN}/no-exception", kind == "return", detail=f"{kind}:{val!r}")
         if kind == "return":
